@@ -181,7 +181,7 @@ def _score(cell, stats):
             cv_blank = [blank, cvrs[1]]
             if pooled:
                 asn.assorter.set_tally_pool_means(cvr_list=cv_blank, use_style=style)
-            o_blank = EV.of(merge.merged_call(asn.assorter.overstatement, mvr, blank, style))
+            o_blank = EV.of(merge.merged_call(asn.assorter.overstatement, ph_listed, blank, style))
             means_blank = dict(asn.assorter.tally_pool_means) if pooled else None
         except core.PathAbort:
             raise
@@ -200,8 +200,10 @@ def _score(cell, stats):
             claims.append((f"overstatement assorter never increases when the card cannot be found (margin {mg})",
                            _b(And(b_any.fin(), b_pe.fin(), b_pl.fin(), b_pe.v <= b_any.v, b_pl.v <= b_any.v))))
         # phantom CVR == blank record (given the CVR is a phantom listing the contest or not)
-        claims.append(("a phantom CVR is scored as a non-vote (same overstatement as a record with no mark)",
-                       z3.Implies(cph, _b(And(o_blank.fin(), o_any.fin(), o_blank.v == o_any.v)))))
+        # the CVR-side score is read off with an unfindable manual record (scored 0): omega = score(cvr) - 0.
+        # a phantom CVR must be scored 1/2, or (pooled batches) like a record with no mark in its place - both readings of 'non-vote'
+        claims.append(("a phantom CVR is scored as a non-vote (1/2, or as a record with no mark inside a pooled batch)",
+                       z3.Implies(cph, _b(And(o_pl.fin(), Or(o_pl.v == R(F(1, 2)), And(o_blank.fin(), o_blank.v == o_pl.v)))))))
         if pooled and means_ph is not None:
             a, b = EV.of(means_ph.get("P")), EV.of(means_blank.get("P"))
             lists0 = cc[0].lists if style else z3.BoolVal(True)
@@ -350,9 +352,13 @@ def replay(f):
                 mp = dict(asn.assorter.tally_pool_means) if pooled else None
                 if pooled:
                     asn.assorter.set_tally_pool_means(cvr_list=[blank, cv1], use_style=style)
-                ob = asn.assorter.overstatement(mvr, blank, style)
-                if abs(ob - o_any) > 1e-12:
-                    bad.append(f"phantom CVR overstatement {o_any!r} differs from a blank record's {ob!r}")
+                phl = A.CVR(id=0, votes={"K": {}}, phantom=True)
+                ob = asn.assorter.overstatement(phl, blank, style)
+                if pooled:
+                    asn.assorter.tally_pool_means = mp
+                oc = asn.assorter.overstatement(phl, cv0, style)
+                if abs(oc - 0.5) > 1e-12 and abs(ob - oc) > 1e-12:
+                    bad.append(f"phantom CVR scored {oc!r}: neither 1/2 nor a blank record's {ob!r}")
     except Exception as e:      # noqa
         return dict(reproduced=True, detail=f"raised {e!r}")
     return dict(reproduced=bool(bad), detail="; ".join(bad[:3]) or "held")
